@@ -361,6 +361,9 @@ class Quaternion(SMUserList):
 
         :seealso: :func:`~spatialmath.quaternion.Quaternion.exp`, :func:`~spatialmath.quaternion.Quaternion.log`, :func:`~spatialmath.quaternion.UnitQuaternion.angvec`, 
         """
+        if len(self) > 1:
+            # apply to each value
+            return Quaternion([q.log().A for q in self])
         norm = self.norm()
         s = math.log(norm)
         v = math.acos(self.s / norm) * base.unitvec(self.v)
@@ -1769,7 +1772,9 @@ class UnitQuaternion(Quaternion):
 
         :seealso: :func:`~spatialmath.base.quaternions.slerp`
         """
-        # TODO vectorize
+        if not base.isscalar(s):
+            # a sequence of interpolation coefficients gives a sequence of quaternions
+            return UnitQuaternion([self.interp(x, dest=dest, shortest=shortest).A for x in base.getvector(s)])
 
         if dest is not None:
             # 2 quaternion form
